@@ -45,3 +45,32 @@ func RunBad(all []elem, table, db string) []elem {
 	}
 	return all[start:end]
 }
+
+// C43-S2 fixture: sorting objects into class accumulators.
+
+func SortGood(all []elem) (b, a []elem) {
+	var beforeU, afterU []elem
+	for _, e := range all {
+		if e.DB == "before" {
+			beforeU = append(beforeU, e)
+		} else {
+			afterU = append(afterU, e)
+		}
+	}
+	return beforeU, afterU
+}
+
+// SortBad grows the AFTER accumulator from the BEFORE one.
+func SortBad(all []elem) (b, a []elem) {
+	var beforeU, afterU []elem
+	for _, e := range all {
+		if e.DB == "before" {
+			beforeU = append(beforeU, e)
+		} else if e.DB == "after" {
+			afterU = append(afterU, e)
+		} else {
+			afterU = append(beforeU, e)
+		}
+	}
+	return beforeU, afterU
+}
